@@ -41,7 +41,9 @@ def lock_stages(profile, quick_cases, thorough_cases, thorough_r10=None):
          {"variant": "lock_r1", "binary": "lock_harness", "profile": profile, "sweep": True, "extra": [], "cases_per_worker": 0, "max_seconds": 240,
           "engine": "bounded sweep (seed independent): two-thread one-transaction programs x ALL schedules with <= 2 step-level preemptions"},
          {"variant": "lock_r10", "binary": "lock_harness", "profile": profile, "cases_per_worker": max(1000, quick_cases // 5), "max_seconds": 240,
-          "engine": "same generators against the library built with the default CPP_UTILITY_SPINLOCK_RETRY_NUM=10"}]
+          "engine": "same generators against the library built with the default CPP_UTILITY_SPINLOCK_RETRY_NUM=10"},
+         {"variant": "lock_r3nohint", "binary": "lock_harness", "profile": profile, "cases_per_worker": max(600, quick_cases // 8), "max_seconds": 200,
+          "engine": "same generators against the library built without CPP_UTILITY_HAS_SPINLOCK_HINT (bare spin loops) and CPP_UTILITY_SPINLOCK_RETRY_NUM=3"}]
     t = [{"variant": "lock_r1", "binary": "lock_harness", "profile": profile, "cases_per_worker": thorough_cases, "max_seconds": 1500},
          {"variant": "lock_r10", "binary": "lock_harness", "profile": profile, "cases_per_worker": thorough_r10 or thorough_cases // 2,
           "max_seconds": 1500},
